@@ -129,6 +129,11 @@ func (l *l2) run(cfg liveCfg, chunks [][]byte, deltas []int32) ([]obs, error) {
 	l.got = l.got[:0]
 	stop, err := midi.ListenTo(l.in, func(m midi.Message, ts int32) {
 		l.got = append(l.got, obs{append([]byte(nil), m...), ts, l.cur})
+		// the message handed to the receiver is the receiver's: it edits it in place (a thru rule that
+		// transposes before forwarding); nothing delivered later may be affected
+		for k := range m {
+			m[k] ^= 0x2A
+		}
 	}, l.opts(cfg)...)
 	if err != nil {
 		return nil, err
